@@ -21,6 +21,7 @@ import (
 
 	oci "github.com/opencontainers/runtime-spec/specs-go"
 	"tags.cncf.io/container-device-interface/pkg/cdi"
+	"tags.cncf.io/container-device-interface/pkg/parser"
 	"tags.cncf.io/container-device-interface/schema"
 	specs "tags.cncf.io/container-device-interface/specs-go"
 	"verif/mc/gen"
@@ -147,6 +148,28 @@ func (w *worker) eval(c Case) hx.Result {
 					outcome = "loaded"
 				}
 			}
+		case "name":
+			// a device-name / annotation string through every entry point that takes one
+			n := string(c.Bytes)
+			_, _, _ = parser.ParseDevice(n)
+			_, _, _, _ = parser.ParseQualifiedName(n)
+			_ = parser.IsQualifiedName(n)
+			_, _ = parser.ParseQualifier(n)
+			_ = parser.QualifiedName(n, n, n)
+			_, _, _ = parser.ValidateVendorName(n), parser.ValidateClassName(n), parser.ValidateDeviceName(n)
+			_, _, _ = cdi.ParseAnnotations(map[string]string{"cdi.k8s.io/x": n, "cdi.k8s.io/" + n: "vendor.com/class=dev", n: n})
+			_, _ = cdi.AnnotationValue([]string{n})
+			_, _ = cdi.AnnotationValue([]string{"vendor.com/class=dev", n})
+			_, _ = cdi.AnnotationKey(n, n)
+			_, _ = cdi.AnnotationKey("plugin", n)
+			_, _ = cdi.UpdateAnnotations(map[string]string{n: n}, n, n, []string{n})
+			_, _ = cdi.UpdateAnnotations(nil, "plugin", "id", []string{n, n})
+			_ = w.cache.GetDevice(n)
+			_, _ = w.cache.InjectDevices(&oci.Spec{}, n, "vendor.com/class=dev", n)
+			_ = w.cache.GetVendorSpecs(n)
+			_ = cdi.GenerateSpecName(n, n)
+			_ = cdi.GenerateTransientSpecName(n, n, n)
+			outcome = "evaluated"
 		case "bytes", "stress":
 			files := len(c.Bytes) <= 3 || c.Kind == "stress"
 			for _, ext := range []string{".json", ".yaml"} {
@@ -173,6 +196,10 @@ func classes(c Case) string {
 	}
 	return strings.Join(cl, "+")
 }
+
+// nameTokens: the alphabet of the device-name / annotation string sweep (separators of the
+// qualified-name and annotation grammars, one letter, one digit, blank, NUL, a non-ASCII letter)
+var nameTokens = []string{"a", "/", "=", ".", ":", ",", "0", " ", "\x00", "\u00e9", "_"}
 
 var structural = []byte{'{', '}', '[', ']', ':', ',', '"', '\'', '-', ' ', '\n', 'a', '1', '#', '&', '*', '!', '|', '>', '?', '%', '\t', 0x00, 0xFF, '.', '~', '<', '=', '\\'}
 
@@ -447,11 +474,32 @@ func main() {
 			jobs = append(jobs, job{kind: "bytes", n: n, lo: lo, hi: hi})
 		}
 	}
+	// (b2) device-name / annotation strings: every string of up to NL tokens
+	NL := 5
+	if r.Thorough() {
+		NL = 6
+	}
+	powN := func(n int) int {
+		t := 1
+		for i := 0; i < n; i++ {
+			t *= len(nameTokens)
+		}
+		return t
+	}
+	for n := 0; n <= NL; n++ {
+		for lo := 0; lo < powN(n); lo += 4096 {
+			hi := lo + 4096
+			if hi > powN(n) {
+				hi = powN(n)
+			}
+			jobs = append(jobs, job{kind: "names", n: n, lo: lo, hi: hi})
+		}
+	}
 	st := stressDocs()
 	for i := range st {
 		jobs = append(jobs, job{kind: "stress", bi: i})
 	}
-	var nDocs, nPairs, nBytes atomic.Int64
+	var nDocs, nPairs, nBytes, nNames atomic.Int64
 	// documents also fed to the background goroutine: (base, confusion index) references, -1 = the base itself
 	type docRef struct{ bi, mi int }
 	var bgRefs []docRef
@@ -460,12 +508,12 @@ func main() {
 		return fmt.Sprintf("(a) %d base documents x every member position (present members, absent optional members, first/last list elements, one unknown member per object) x an 18-value type-confusion domain "+
 			"(absent, null, strings, 0, -1, 2^32, 2^63, below int64, 1.5, true, [], [null], [\"\"], [[]], [{}], {}, {x:null}, deep nesting) and every single value-level defect of C05's generator (malformed names, keys, paths, versions, sizes): %d documents (+%d confusion pairs), JSON and YAML, through ParseSpec, ReadSpec, cache Refresh and every query, "+
 			"MinimumRequiredVersion/ValidateVersion, schema ValidateData/ValidateReader/ReadAndValidate/ValidateFile/Validate, and - when the document loads - InjectDevices/ApplyEdits of every device into %d OCI spec shapes; "+
-			"(b) every byte string of length 0..%d over %d structural bytes (%d strings); (c) %d stress documents; (d) documents of (a) loaded by the watcher goroutine of an auto-refresh cache in worker subprocesses. "+
+			"(b) every byte string of length 0..%d over %d structural bytes (%d strings); (b2) every string of up to %d tokens over %q (%d strings) as device name, annotation key/value, plugin and device id through the parser, the annotation helpers, GetDevice and InjectDevices; (c) %d stress documents; (d) documents of (a) loaded by the watcher goroutine of an auto-refresh cache in worker subprocesses. "+
 			"Oracle: no panic, no process death, a file that does not load has a cache error entry. Distinct by construction; every case is non-trivial (it is executed against all entry points)",
-			len(bases), nDocs.Load(), nPairs.Load(), len(ociShapes), L, len(structural), nBytes.Load(), len(st))
+			len(bases), nDocs.Load(), nPairs.Load(), len(ociShapes), L, len(structural), nBytes.Load(), NL, nameTokens, nNames.Load(), len(st))
 	}
 	r.Assumptions = []string{"hangs: every call is bounded by the run watchdog; a stuck case is reported as an infrastructure error (exit 2), not silently skipped",
-		"parser/annotation string inputs are swept by C07/C15 (a panic there is also a C08 violation)", "queue overflow of inotify is out of scope"}
+		"queue overflow of inotify is out of scope"}
 
 	nw := 16
 	workers := make(chan *worker, nw)
@@ -562,6 +610,17 @@ func main() {
 				}
 				run(Case{Kind: "bytes", Bytes: b, Printable: fmt.Sprintf("%q", b)})
 				nBytes.Add(1)
+			}
+		case "names":
+			for x0 := jb.lo; x0 < jb.hi; x0++ {
+				b := make([]byte, 0, jb.n*2)
+				x := x0
+				for k := 0; k < jb.n; k++ {
+					b = append(b, nameTokens[x%len(nameTokens)]...)
+					x /= len(nameTokens)
+				}
+				run(Case{Kind: "name", Bytes: b, Printable: fmt.Sprintf("%q", b)})
+				nNames.Add(1)
 			}
 		case "stress":
 			run(st[jb.bi])
